@@ -393,22 +393,34 @@ def r4_delimiter_provenance(ctx):
                      '' if ok else 'argument %d is %s' % (i, norm(c.args[i]) if len(c.args) > i else 'missing'))
         ok = bool(c.args) and path_of(c.args[0]) == 'line'
         yield Ob('x12file:X12Reader.__iter__ Segment is built from the token', ok, ctx.floc(it, c), '' if ok else 'first argument is %s' % norm(c.args[0]))
-    # X12Reader.__init__: unpack of self.raw.get_term() into names assigned to the same-named attributes
+    # X12Reader.__init__: every delimiter attribute is the get_term() field of the same name.  Recognised forms:
+    #   (a, b, ..) = self.raw.get_term() ; self.x = a        (a, b may be attributes themselves)
+    #   self.x = self.raw.get_term()[i]                      (also what the normal form makes of the first)
     init = ctx.func('x12file', 'X12Reader.__init__')
-    unpack = None
+    pos_of = {}
+    arity = None
     for n in ast.walk(init):
-        if isinstance(n, ast.Assign) and isinstance(n.targets[0], ast.Tuple) and isinstance(n.value, ast.Call) \
-                and A.call_target(n.value)[1] == 'get_term':
-            unpack = [path_of(x) for x in n.targets[0].elts]
-    if unpack is None:
+        if not isinstance(n, ast.Assign) or len(n.targets) != 1:
+            continue
+        t, v = n.targets[0], n.value
+        if isinstance(t, ast.Tuple) and isinstance(v, ast.Call) and A.call_target(v)[1] == 'get_term':
+            arity = len(t.elts)
+            for i, x in enumerate(t.elts):
+                if path_of(x):
+                    pos_of[path_of(x)] = i
+    for n in ast.walk(init):
+        if not isinstance(n, ast.Assign) or len(n.targets) != 1:
+            continue
+        t, v = path_of(n.targets[0]), n.value
+        if not t:
+            continue
+        if isinstance(v, ast.Subscript) and isinstance(v.value, ast.Call) and A.call_target(v.value)[1] == 'get_term' \
+                and isinstance(A.const(v.slice), int):
+            pos_of[t] = A.const(v.slice)
+        elif path_of(v) in pos_of and t not in pos_of:
+            pos_of[t] = pos_of[path_of(v)]
+    if not pos_of:
         raise AnalysisError('X12Reader.__init__: get_term() unpacking not found')
-    attr_from = {}
-    for n in ast.walk(init):
-        if isinstance(n, ast.Assign) and len(n.targets) == 1:
-            t = path_of(n.targets[0])
-            v = path_of(n.value)
-            if t and t.startswith('self.') and v in unpack:
-                attr_from[t[5:]] = v
     raw = ctx.func('rawx12file', 'RawX12File.get_term')
     prod = [path_of(x) if not isinstance(x, ast.Constant) else repr(x.value) for x in _return_tuple(raw)]
     base = ctx.func('x12file', 'X12Base.get_term')
@@ -416,15 +428,14 @@ def r4_delimiter_provenance(ctx):
     ok = prod == prod2
     yield Ob('get_term producers agree by position (RawX12File / X12Base)', ok, ctx.floc(raw),
              '' if ok else '%s vs %s' % (prod, prod2))
-    ok = len(unpack) == len(prod)
+    ok = (arity is None or arity == len(prod)) and all(p < len(prod) for p in pos_of.values())
     yield Ob('x12file:X12Reader.__init__ unpacks as many fields as get_term returns', ok, ctx.floc(init),
-             '' if ok else 'unpacks %d, producer returns %d' % (len(unpack), len(prod)))
+             '' if ok else 'unpacks %s, producer returns %d' % (arity, len(prod)))
     for nm in names + ('repetition_term',):
-        src = attr_from.get(nm)
-        pos = unpack.index(src) if src in unpack else None
+        pos = pos_of.get('self.' + nm)
         ok = pos is not None and pos < len(prod) and prod[pos] == 'self.' + nm
         yield Ob('x12file:X12Reader.__init__ self.%s comes from the header field of the same name' % nm, ok, ctx.floc(init),
-                 '' if ok else 'self.%s <- %s <- producer position %s = %s' % (nm, src, pos, prod[pos] if pos is not None and pos < len(prod) else None))
+                 '' if ok else 'self.%s <- producer position %s = %s' % (nm, pos, prod[pos] if pos is not None and pos < len(prod) else None))
     # error_html consumer
     eh = ctx.func('error_html', 'error_html.__init__')
     idx = {}
